@@ -18,9 +18,14 @@ _base = b"".join(hashlib.sha512(b"dissect.hypervisor/verif/%d" % i).digest() for
 _xor = [bytes(b ^ k for b in range(256)) for k in range(256)]
 
 
+COMPRESSIBLE = 0x8000  # layers 0x8000..0xFEFF: same header, constant filler (deflates to a few dozen bytes/sector)
+
+
 @lru_cache(maxsize=1 << 16)
 def sector(layer: int, s: int) -> bytes:
     k = (s * 37 + layer * 101 + 1) & 0xFF
+    if COMPRESSIBLE <= layer < 0xFF00:
+        return struct.pack(">HQ", layer & 0xFFFF, s & 0xFFFFFFFFFFFFFFFF) + bytes([k or 1]) * (SECTOR - 10)
     return struct.pack(">HQ", layer & 0xFFFF, s & 0xFFFFFFFFFFFFFFFF) + _base.translate(_xor[k])
 
 
